@@ -877,14 +877,23 @@ def flatten(tree):
 def run(tier, seed):
     R = C.Report(CID, tier, seed)
     rng = C.rng_for(seed, CID)
-    n_tr = 220 if tier == 'quick' else 6000
-    n_cv = 500 if tier == 'quick' else 20000
-    n_hi = 300 if tier == 'quick' else 8000
+    n_tr = 220 if tier == 'quick' else 20000
+    n_cv = 500 if tier == 'quick' else 50000
+    n_hi = 300 if tier == 'quick' else 25000
 
     P = R.proof_stage()
     proof_broken = not P['ok']
     if proof_broken:
         R.notes.append('proof stage: ' + P['log'][-1500:])
+    elif tier == 'thorough':
+        # independent re-check of the compiled closure by coqchk (reports every axiom it meets)
+        rc, o, e = C.sh(f'timeout 900 coqchk -silent -o -Q . Pi2 Pi2.Props.{CID}', cwd=C.COQ, timeout=930)
+        summary = (o + e)[-900:]
+        R.coverage['coqchk'] = summary
+        if rc != 0 or '* Axioms: <none>' not in summary:
+            proof_broken = True
+            P['log'] = 'coqchk: ' + summary
+            R.notes.append('coqchk failed or reported axioms: ' + summary)
 
     ok, log, mlref = build()
     mismatches = []
